@@ -168,7 +168,7 @@ static int cb(json_object *jso, int flags, json_object *parent, const char *key,
 	{
 		call_t *c = &calls[ncalls];
 		c->n = id_of(jso);
-		c->f = flags;
+		c->f = flags & JSON_C_VISIT_SECOND; /* (the one documented bit: set exactly on a container's second visit) */
 		c->p = id_of(parent);
 		c->k = key ? atoi(key + 1) : -1;
 		c->i = idx ? (int)*idx : -1;
@@ -184,7 +184,10 @@ static void run_and_record(void)
 	ncalls = 0;
 	fflush(stdout);
 	/* the library reports invalid codes on stderr: silence it */
-	int rc = json_c_visit(root, 0, cb, NULL);
+	/* json_c_visit's second argument is reserved ("future_flags"): whatever the caller passes there, the traversal and
+	 * the flag the callback sees are the documented ones */
+	static const int ff[] = {1, JSON_C_VISIT_SECOND, 0x10, -1, 0x7fffffff};
+	int rc = json_c_visit(root, vh_below(5) < 3 ? 0 : ff[vh_below(5)], cb, NULL);
 	ev_begin("visit");
 	ev_open_arr("nodes");
 	for (int i = 1; i <= nnodes; i++)
